@@ -186,6 +186,9 @@ class Mgr:
             hit = [o for (o, n) in log if n == name]
             if not hit or hit[0] is not expected:
                 wrong.append(name)
+        if len(wrong) == len(funs) + len(attrs):
+            return []          # no look-up was logged at all: the dispatcher does not go through attribute access of the
+            #                    instance (a refactoring the logging cannot follow); the marker-method probes still apply
         return wrong
 
     def observe(self, full=False):
@@ -630,6 +633,19 @@ def predicates_micro(m, scenario, result):
     for j, (res, _) in enumerate(steps):
         if res != "done":
             fails.append(("C17_exit_succeeds", j, f"follow-up exit ended abnormally: {res}"))
+    # C17_selected_is_current holds in every order of blocks: a thread's own selection is private to it, so after
+    # both calls have returned each caller observes what IT selected (no other operation of that thread in between)
+    setup, opA, opB = scenario[0], scenario[1], scenario[2]
+    for op, res in ((opA, resA), (opB, resB)):
+        if op[0] in ("set", "enter") and res == "done" and M.sel_valid(op[3]):
+            tok = ("n", op[3][1]) if op[3][0] == "n" else ("o", op[3][1])
+            o = obs[op[1]][m]
+            ok = o[0] == M.token_name(tok) and (o[1] == tok or (o[1] is None and tok[0] == "n" and tok[1] in M.stock))
+            if not ok:
+                fails.append(("C17_selected_is_current", -1, f"thread {op[1]} selected {tok} ({op[0]}) while thread "
+                              f"{(opB if op is opA else opA)[1]} ran {(opB if op is opA else opA)[0]} concurrently, and observes {o[:2]} afterwards"))
+        if op[0] in ("set", "enter") and (res == "done") != M.sel_valid(op[3]):
+            fails.append(("C17_rejection", -1, f"concurrent {op[0]} of selector {op[3]} by thread {op[1]} ended with {res}"))
     return fails
 
 
